@@ -2,7 +2,7 @@
  * fire (no ADV): timer expiries, iterates and button callbacks are explicit events, so the model needs no schedule.
  * CFG as in c07_core.h plus rest = ninputs (gpio type flags relaygpio channel)*
  * Events: REG | ITER | SETV ch v dur sender | GRP ch v dur | BTN idx active | TICK dt_us | TIME2 ch ms | CHCFG ch func type size ms (core)
- *         | SENTRES r r ... (devsim: results of the next espconn_sent calls, 0 afterwards)
+ *         | SENTRES r r ... (devsim: results of the next espconn_sent calls, 0 afterwards) | ADV dt_us | BURST (ch v dur sender)*
  * Outputs: GPIO t pin lvl | VAL t ch v | RES t ch sender ok | EXT t ch remaining target sender | WOTH t call_id
  *          DROP t call_id (a call refused by the full out-queue) | Q t queued_calls buffered_bytes staged_bytes (after every event) */
 #include "c07_core.h"
@@ -63,6 +63,26 @@ static int c6_event(char *l) {
   if (!strncmp(l, "BTN ", 4)) {
     int idx = 0, act = 0; sscanf(l + 4, "%d %d", &idx, &act);
     if (idx >= 0 && idx < v_board.ninput) { if (act) supla_esp_gpio_on_input_active(&supla_input_cfg[idx]); else supla_esp_gpio_on_input_inactive(&supla_input_cfg[idx]); }
+    return 1;
+  }
+  if (!strncmp(l, "ADV ", 4)) {   /* time passes with the SDK timers running; devconn's own timers (iterate, watchdog, ...) stay out: iterates are events */
+    v7_disarm_devconn_timers(); v_advance(strtoull(l + 4, NULL, 0)); v7_disarm_devconn_timers(); return 1;
+  }
+  if (!strncmp(l, "BURST ", 6)) {  /* BURST (ch v dur sender)* : the SET_VALUE frames arrive in ONE receive callback */
+    static unsigned char seg[1100]; unsigned n = 0; char *p = l + 6;
+    for (;;) {
+      long long a[4]; int k = 0;
+      while (k < 4) { while (*p == ' ') p++; if (!*p || *p == ':') break; a[k++] = strtoll(p, &p, 0); }
+      if (k < 4) break;
+      TSD_SuplaChannelNewValue nv; memset(&nv, 0, sizeof nv);
+      nv.SenderID = (int)a[3]; nv.ChannelNumber = (unsigned char)a[0]; nv.DurationMS = (unsigned)a[2]; nv.value[0] = (char)a[1];
+      unsigned rr = ds_srv_rr++, call = SUPLA_SD_CALL_CHANNEL_SET_VALUE, sz = sizeof nv;
+      if (n + 18 + sz + 5 > sizeof seg) break;
+      memcpy(seg + n, "SUPLA", 5); seg[n + 5] = ESP8266_SUPLA_PROTO_VERSION; memcpy(seg + n + 6, &rr, 4); memcpy(seg + n + 10, &call, 4); memcpy(seg + n + 14, &sz, 4);
+      memcpy(seg + n + 18, &nv, sz); memcpy(seg + n + 18 + sz, "SUPLA", 5); n += 18 + sz + 5;
+    }
+    vd_espconn()->recv_callback = (espconn_recv_callback)supla_esp_devconn_recv_cb;
+    if (n) ds_recv(seg, (int)n); else supla_esp_devconn_iterate(NULL);
     return 1;
   }
   if (!strncmp(l, "TICK ", 5)) { long long dt = atoll(l + 5); if (dt >= 0) { v_now += (unsigned long long)dt; supla_esp_countdown_timer_cb(NULL); } return 1; }
